@@ -234,6 +234,12 @@ func shortFile(p string) string {
 
 // check emits an obligation and then assumes it (execution continues on the safe side).
 func (ex *Exec) check(fr *Frame, st *State, kind, label string, pos token.Pos, goal string) {
+	if ex.block != nil && ex.block.Parsetime && (kind == "frame-store" || kind == "frame-call") {
+		// parse-time regime: the tree under construction (and the parser object) is wholly owned by the
+		// running Parse; ownership obligations carry nothing there.  That package-level read-only
+		// variables are not stored to is a separate structural check (readonlyglobals).
+		return
+	}
 	ex.oblige(fr, st, kind, label, pos, goal)
 	st.assume(goal)
 }
@@ -895,6 +901,22 @@ func (ex *Exec) pointerLoc(sv SVal, ptrT types.Type) *Loc {
 	return &Loc{Heap: ex.w.cellHeap(et), Ref: sv.T, Elem: et}
 }
 
+// guardCheck: accesses to a package-level variable declared `guarded X by M` need the mutex held.
+func (ex *Exec) guardCheck(fr *Frame, st *State, ref string, pos token.Pos) {
+	owner := ex.ownerRef(ref)
+	for _, g := range ex.w.specs.Guards {
+		gv := ex.w.pkg.Var(g[0])
+		mv := ex.w.pkg.Var(g[1])
+		if gv == nil || mv == nil {
+			continue
+		}
+		if owner == ex.w.globalRef(gv) {
+			held := ex.heapTerm(st, ex.w.ghostHeap("G_held"))
+			ex.check(fr, st, "lock-held", g[0], pos, sel(held, ex.w.globalRef(mv)))
+		}
+	}
+}
+
 func (ex *Exec) isPoolLoc(l *Loc) bool {
 	if strings.HasSuffix(l.Heap, "bufferContainer_result") {
 		return true
@@ -923,6 +945,7 @@ func (ex *Exec) doUnOp(fr *Frame, st *State, x *ssa.UnOp) {
 		if ex.isPoolLoc(loc) {
 			ex.check(fr, st, "use-after-put", "", x.Pos(), sel(ex.heapTerm(st, ex.w.ghostHeap("G_held")), loc.Ref))
 		}
+		ex.guardCheck(fr, st, loc.Ref, x.Pos())
 		t := ex.loadLoc(st, loc)
 		// name the loaded value
 		c := ex.fresh(fnShort(fr.fn)+"_"+x.Name(), ex.w.sortOf(et))
@@ -1059,6 +1082,11 @@ func (ex *Exec) doIndexAddr(fr *Frame, st *State, x *ssa.IndexAddr) {
 	switch u := x.X.Type().Underlying().(type) {
 	case *types.Slice:
 		ex.check(fr, st, "bounds", "", x.Pos(), and(le("0", idx), lt(idx, sLen(sv.T))))
+		if isStructType(u.Elem()) && !isEmptyStruct(u.Elem()) {
+			// element of a slice of structs: its fields live at an injective reference
+			st.vals[x] = SVal{T: "(elemref " + sArr(sv.T) + " " + idxT(sOff(sv.T), idx) + ")"}
+			return
+		}
 		h := ex.w.elemHeap(u.Elem())
 		st.vals[x] = SVal{T: "0", Loc: &Loc{Heap: h, Ref: sArr(sv.T), Idx: idxT(sOff(sv.T), idx), Elem: u.Elem()}}
 	case *types.Pointer:
@@ -1079,6 +1107,7 @@ func (ex *Exec) doStore(fr *Frame, st *State, x *ssa.Store) {
 	if isStructType(et) && !isEmptyStruct(et) {
 		ex.check(fr, st, "nil", "", x.Pos(), not(eq(addr.T, "0")))
 		ex.check(fr, st, "frame-store", "", x.Pos(), sel(mine, ex.ownerRef(addr.T)))
+		ex.guardCheck(fr, st, addr.T, x.Pos())
 		ex.storeStruct(st, et, addr.T, v.T)
 		return
 	}
@@ -1090,6 +1119,7 @@ func (ex *Exec) doStore(fr *Frame, st *State, x *ssa.Store) {
 		ex.check(fr, st, "nil", "", x.Pos(), not(eq(addr.T, "0")))
 	}
 	ex.check(fr, st, "frame-store", "", x.Pos(), sel(mine, ex.ownerRef(loc.Ref)))
+	ex.guardCheck(fr, st, loc.Ref, x.Pos())
 	if ex.isPoolLoc(loc) {
 		ex.check(fr, st, "use-after-put", "", x.Pos(), sel(ex.heapTerm(st, ex.w.ghostHeap("G_held")), loc.Ref))
 	}
@@ -1167,6 +1197,9 @@ func (ex *Exec) doConvert(fr *Frame, st *State, x *ssa.Convert) {
 		r := ex.newRef(st, "conv")
 		n := ex.fresh("convlen", "Int")
 		u := x.Type().Underlying().(*types.Slice)
+		if b, ok := u.Elem().Underlying().(*types.Basic); ok && b.Kind() == types.Int32 {
+			st.assume(eq(n, "(runeCount "+sv.T+")"))
+		}
 		if b, ok := u.Elem().Underlying().(*types.Basic); ok && b.Kind() == types.Uint8 {
 			st.assume(eq(n, "(strlen "+sv.T+")"))
 			h := ex.w.elemHeap(u.Elem())
